@@ -18,6 +18,7 @@
 #include <config.h>
 #include <mpi.h>
 #include <csignal>
+#include <csetjmp>
 #include <cstdio>
 #include <cstdlib>
 #include <cstring>
@@ -155,6 +156,26 @@ static void pmap(std::ostream& os, const RI& ri, const char* nb)
   os << "}";
 }
 
+
+// Printing follows RemoteIndex::localIndexPair(), a stored pointer.  A defect that stores an invalid pointer must not take the
+// whole launch down (every queued case would be lost and mpirun needs seconds to tear down): while printing, SIGSEGV/SIGBUS
+// jump back and the map is reported as {SEGV}, which the oracle rejects.
+static sigjmp_buf g_jb;
+static volatile sig_atomic_t g_guard = 0;
+static void on_segv(int sig)
+{
+  if (g_guard) { g_guard = 0; siglongjmp(g_jb, 1); }
+  std::signal(sig, SIG_DFL); raise(sig);
+}
+template<class RI>
+static void pmap_guarded(std::ostream& os, const RI& ri, const char* nb)
+{
+  std::ostringstream* tmp = new std::ostringstream();      // leaked on the SEGV path
+  g_guard = 1;
+  if (sigsetjmp(g_jb, 1) == 0) { pmap(*tmp, ri, nb); g_guard = 0; os << tmp->str(); delete tmp; }
+  else { g_guard = 0; os << nb << "=" << ri.neighbours() << " {SEGV}"; }
+}
+
 template<class G, class A, int N>
 static void run_case(std::ostream& os, const Case& c, int rank, MPI_Comm comm)
 {
@@ -163,25 +184,28 @@ static void run_case(std::ostream& os, const Case& c, int rank, MPI_Comm comm)
   typedef Dune::RemoteIndices<PIS> RI;
   PIS S, T;
   fill(S, c.src[0][rank]);
-  if (c.two) fill(T, c.dst[0][rank]);
-  PIS& tgt = c.two ? T : S;
+  // two = 0: every rank passes ONE index-set object for both roles; 1: every rank passes two objects;
+  // two >= 2: mixed, bit r of (two - 2) says whether rank r passes two objects (the others pass their source set twice)
+  const bool two = c.two >= 2 ? (((c.two - 2) >> rank) & 1) != 0 : c.two != 0;
+  if (two) fill(T, c.dst[0][rank]);
+  PIS& tgt = two ? T : S;
   RI ri(S, tgt, comm, c.mode ? c.hints[rank] : std::vector<int>(), c.incself != 0);
   os << "r" << rank << " pre=" << (ri.isSynced() ? 1 : 0);
   pmpi_sched_reseed(c.seed);
   if (c.ign) ri.template rebuild<true>(); else ri.template rebuild<false>();
   os << " syn=" << (ri.isSynced() ? 1 : 0) << " ";
-  pmap(os, ri, "nb");
+  pmap_guarded(os, ri, "nb");
   // with one index set the "target" set is the source set: a resize of either resizes that one object (once per bit)
   if (c.resize & 1) resize_to(S, c.src[0][rank], c.src[1][rank]);
   if (c.resize & 2) {
-    if (c.two) resize_to(T, c.dst[0][rank], c.dst[1][rank]);
+    if (two) resize_to(T, c.dst[0][rank], c.dst[1][rank]);
     else resize_to(tgt, (c.resize & 1) ? c.src[1][rank] : c.src[0][rank], c.src[1][rank]);
   }
   os << " aft=" << (ri.isSynced() ? 1 : 0);
   if (c.ign2) ri.template rebuild<true>(); else ri.template rebuild<false>();
   pmpi_sched_reseed(0);
   os << " syn2=" << (ri.isSynced() ? 1 : 0) << " ";
-  pmap(os, ri, "nb2");
+  pmap_guarded(os, ri, "nb2");
 }
 
 
@@ -278,7 +302,7 @@ static void run_hist(std::ostream& os, const HCase& c, int rank, MPI_Comm comm)
           eq = (*ri == fresh) && (fresh == *ri);
         }
         os << " eq=" << (eq ? 1 : 0) << " ";
-        pmap(os, *ri, "nb");
+        pmap_guarded(os, *ri, "nb");
         // accessors: find() agrees with the iteration, the index sets are the ones given, a copy of a list equals the list
         std::string bad;
         int seen = 0;
@@ -315,6 +339,7 @@ static unsigned fnv(const std::string& s) { unsigned h = 2166136261u; for (unsig
 int main(int argc, char** argv)
 {
   MPI_Init(&argc, &argv);
+  std::signal(SIGSEGV, on_segv); std::signal(SIGBUS, on_segv);
   int np;
   MPI_Comm_rank(MPI_COMM_WORLD, &g_rank);
   MPI_Comm_size(MPI_COMM_WORLD, &np);
